@@ -54,6 +54,7 @@ var c05Strategies = []string{
 	"byte-mutated-any",       // 19 byte-level mutation of any one message kind
 	"short-share",            // 20 a well-formed share with one component too few (PS: one y fewer; BLS: one byte fewer), instead of the valid one
 	"long-share",             // 21 ... one component too many
+	"empty-commit-then-late", // 22 an empty commitment first; the real commitment and the key only after every honest party has revealed
 }
 
 type c05Case struct {
@@ -213,6 +214,9 @@ func runC05(c c05Case) *vh.Outcome {
 	var fail *vh.Failure
 	shares := map[int][]byte{}
 	revealEarly := ""
+	revealedOwn := map[uint16]bool{}
+	byzCommitsBefore := map[uint16][][]byte{}
+	byzFirstReveal := map[uint16][]byte{}
 
 	br := sim.Bubble(theT, func() {
 		k := kit.New(kit.Kind{Name: c.Backend, L: c.L}, parties, c.T, nil) // the Byzantine party is an honest puppet whose traffic is rewritten
@@ -221,7 +225,17 @@ func runC05(c c05Case) *vh.Outcome {
 
 		// ordering clause observation
 		commitsHeld := map[uint16]map[uint16]bool{}
+		// commitment binding, observed: which commitments of the deviating participant an honest party was handed BEFORE it
+		// disclosed its own key, and which revealed key of that participant it was handed first
 		k.OnRecv = func(to, from uint16, payload []byte, bc bool) {
+			if from == byz && to != byz && len(payload) > 0 {
+				if payload[0] == kCommit && !revealedOwn[to] {
+					byzCommitsBefore[to] = append(byzCommitsBefore[to], append([]byte(nil), payload[1:]...))
+				}
+				if payload[0] == kReveal && byzFirstReveal[to] == nil {
+					byzFirstReveal[to] = append([]byte{}, payload[1:]...)
+				}
+			}
 			if len(payload) > 0 && payload[0] == kCommit {
 				if commitsHeld[to] == nil {
 					commitsHeld[to] = map[uint16]bool{}
@@ -234,6 +248,7 @@ func runC05(c c05Case) *vh.Outcome {
 		}
 		k.OnEmit = func(from uint16, payload []byte, bc bool, to uint16) {
 			if from != byz && len(payload) > 0 && payload[0] == kReveal {
+				revealedOwn[from] = true
 				if len(commitsHeld[from]) < c.N-1 && revealEarly == "" {
 					revealEarly = fmt.Sprintf("party %d disclosed its public-key contribution while holding commitments of only %d of %d other participants", from, len(commitsHeld[from]), c.N-1)
 				}
@@ -247,6 +262,10 @@ func runC05(c c05Case) *vh.Outcome {
 		sentKinds := map[byte]bool{}
 		var honestCommit, honestReveal []byte // copy-cat material (from the lowest honest party)
 		release := func() []*sim.Frame { r := held; held = nil; return r }
+		// strategy 22: the real commitment and the key are kept back until every honest party has disclosed its key
+		honestRevealed := map[uint16]bool{}
+		var lateCommits, lateReveals []*sim.Frame
+		lateReady := false
 		k.Net.Interpose = func(f *sim.Frame) []*sim.Frame {
 			if len(f.Data) < 2 {
 				return []*sim.Frame{f}
@@ -260,6 +279,13 @@ func runC05(c c05Case) *vh.Outcome {
 					}
 					if kind == kReveal && honestReveal == nil {
 						honestReveal = append([]byte(nil), body...)
+					}
+					if kind == kReveal && strat == 22 {
+						honestRevealed[f.From] = true
+						if len(honestRevealed) == c.N-1 && lateReady {
+							lateReady = false
+							return append([]*sim.Frame{f}, append(lateCommits, lateReveals...)...)
+						}
 					}
 				}
 				return []*sim.Frame{f}
@@ -406,6 +432,22 @@ func runC05(c c05Case) *vh.Outcome {
 				if kind == kShare && victim[f.To] {
 					return []*sim.Frame{mk(kind, structural(c.Backend, body, c.Op))}
 				}
+			case 22:
+				if kind == kCommit {
+					lateCommits = append(lateCommits, f)
+					return []*sim.Frame{mk(kind, nil)} // an empty commitment goes out in its place
+				}
+				if kind == kReveal {
+					lateReveals = append(lateReveals, f)
+					if len(lateReveals) < c.N-1 {
+						return nil
+					}
+					if len(honestRevealed) == c.N-1 {
+						return append(lateCommits, lateReveals...)
+					}
+					lateReady = true
+					return nil
+				}
 			case 20, 21:
 				if kind == kShare && victim[f.To] {
 					op := asnmut.Op{Field: 1, Kind: 0} // PS: XYs.Ys, drop the last element
@@ -513,6 +555,25 @@ func runC05(c c05Case) *vh.Outcome {
 	if revealEarly != "" {
 		o.Fail = vh.Failf("C05/reveal-before-all-commitments/"+c.Backend, "%s (strategy %s)", revealEarly, info.Strategy)
 		return o
+	}
+	// commitment binding: a party that completed must have held, before it disclosed its own key, a commitment of the
+	// deviating participant to the very key it then accepted from it
+	for p := range shares {
+		r := byzFirstReveal[uint16(p)]
+		if r == nil {
+			continue
+		}
+		want := sha256.Sum256(r)
+		bound := false
+		for _, cm := range byzCommitsBefore[uint16(p)] {
+			if bytes.Equal(cm, want[:]) {
+				bound = true
+			}
+		}
+		if !bound {
+			o.Fail = vh.Failf("C05/"+c.Backend+"/commitment-not-binding", "honest party %d completed the DKG although, when it disclosed its own key, it held no commitment of participant %d to the key it later accepted from it (%d commitments of that participant held at that time; strategy %s, n=%d t=%d): the participant could choose its key after seeing the honest ones", p, c.Byz, len(byzCommitsBefore[uint16(p)]), info.Strategy, c.N, c.T)
+			return o
+		}
 	}
 	if strat == 0 && len(shares) != c.N-1 {
 		o.Fail = vh.Failf("C05/control-failed/"+c.Backend, "honest control run did not complete: %v", info.Results)
